@@ -612,7 +612,7 @@ pub fn eval_io_case(t: &[&str]) -> Option<String> {
             let mut min_recv = Duration::from_secs(3600);
             let mut min_pre = Duration::from_secs(3600);
             let mut result = String::new();
-            for _ in 0..trials {
+            for trial in 0..trials {
                 let mut rd = SchedReader::new(bytes_of_hex(t[2]), rs.iter().map(|s| rd_ev_of_str(s)).collect());
                 let mut wr = SchedWriter::new(ws.iter().map(|s| wr_ev_of_str(s)).collect());
                 if slow {
@@ -625,6 +625,10 @@ pub fn eval_io_case(t: &[&str]) -> Option<String> {
                     Err(_) => return Some("ER SETUP".to_string()),
                 };
                 let m = msg_of_str(t[1]);
+                if timing && trial % 2 == 1 {
+                    // state an earlier, unrelated call may have left on this thread: a pending wake-up token
+                    std::thread::current().unpark();
+                }
                 let start = Instant::now();
                 let r = guarded(|| bus.process_message(m));
                 let end = Instant::now();
@@ -675,6 +679,30 @@ pub fn eval_io_case(t: &[&str]) -> Option<String> {
             } else {
                 Some(result)
             }
+        }
+        "SBS" => {
+            // SBS k msg1..msgk tape rsched... / wsched... : k exchanges on ONE SerialSignBus over one port
+            let k: usize = t[1].parse().unwrap();
+            let msgs = &t[2..2 + k];
+            let tape = t[2 + k];
+            let (rs, ws) = split_at("/", &t[3 + k..]);
+            let rd = SchedReader::new(bytes_of_hex(tape), rs.iter().map(|s| rd_ev_of_str(s)).collect());
+            let wr = SchedWriter::new(ws.iter().map(|s| wr_ev_of_str(s)).collect());
+            let mut bus = match SerialSignBus::try_new(TestPort::new(rd, wr)) {
+                Ok(b) => b,
+                Err(_) => return Some("ER SETUP".to_string()),
+            };
+            let mut outs = vec![];
+            for m in msgs {
+                let r = guarded(|| bus.process_message(msg_of_str(m)));
+                outs.push(match &r {
+                    None => "PANIC".to_string(),
+                    Some(Ok(reply)) => format!("OK {}", str_omsg(reply)),
+                    Some(Err(_)) => "ER".to_string(),
+                });
+            }
+            let port = bus.port();
+            Some(format!("{} | {} | {}", outs.join(" ; "), hex_of_bytes(&port.wr.out), hex_of_bytes(port.rd.remaining())))
         }
         "OD" => {
             let k: usize = t[1].parse().unwrap();
